@@ -99,7 +99,8 @@ def gen_read(rng, ids):
         return ["read", rng.choice(["tree0", "tree1"])] + qtree.flat_tokens(t)
     if r < 0.95:
         return ["read", "rs", rng.choice(["first", "one", "all", "len", "intersect", "sortsort"]), rng.randrange(8)]
-    return ["read", "legacy", rng.randrange(8), rng.randrange(32), rng.randrange(2), rng.choice([0, 2])]
+    return ["read", "legacy", rng.randrange(8), rng.randrange(32), rng.randrange(2), rng.choice([0, 2]),
+            rng.randrange(5)]
 
 
 def model_cmd(c):
@@ -280,9 +281,23 @@ class Sess(object):
                 return exc_name(e), inputs
         if kind == "legacy":
             const, kwmask, ordered, lim = c[2:6]
+            fmode = c[6] if len(c) > 6 else 0
+            from hypatia.field import RangeValue
             cq = CatalogQuery(self.cat)
             kws = [c09.KWS[i] for i in range(5) if (kwmask >> i) & 1]
-            args = {"i0": (const, const + 3)}
+            # every legacy argument form of the field index; the caller's dicts/lists must survive the read
+            fq = [(const, const + 3),
+                  {"query": [RangeValue(const - 2, const + 3), RangeValue(const, const + 5)], "operator": "and"},
+                  {"query": [const, const + 1], "operator": "or"},
+                  {"query": RangeValue(None, const)},
+                  [const, const + 2]][fmode]
+            if fmode in (1, 2, 3) and ordered:
+                # the index's own apply(), twice with the same caller-owned argument
+                inputs.append(snap("fq", lambda a=fq: repr(sorted(a.items(), key=str))))
+                r1 = canon(self.f.apply(fq))
+                r2 = canon(self.f.apply(fq))
+                return r1 + "/" + r2 + ("" if r1 == r2 else " DIFFERENT-SECOND-ANSWER"), inputs
+            args = {"i0": fq}
             if kws:
                 args["i1"] = {"query": kws, "operator": "or"}
             inputs.append(snap("args", lambda a=args: repr(sorted(a.items(), key=str))))
@@ -294,6 +309,9 @@ class Sess(object):
                 kw["limit"] = lim
             try:
                 num, res = cq.search(**kw)
+                num2, res2 = cq.search(**kw)        # same caller-owned arguments again
+                if (num, list(res)) != (num2, list(res2)):
+                    return canon((num, list(res))) + " DIFFERENT-SECOND-ANSWER " + canon((num2, list(res2))), inputs
                 return canon((num, list(res))), inputs
             except Exception as e:
                 return exc_name(e), inputs
